@@ -552,12 +552,34 @@ class Body:
 
 
 class Program:
-    def __init__(self, facts):
+    def __init__(self, facts, no_inline=None):
+        """no_inline: set of normalised callee paths that must stay calls (the slot-API vocabulary);
+        when given, every body is replaced by its inlined view (inline.py) and the un-inlined
+        bodies stay available as self.orig."""
         self.facts = facts
         self.bodies = {}
-        for raw in facts["bodies"]:
+        self.orig = {}
+        raws = facts["bodies"]
+        if no_inline is not None:
+            from inline import Inliner
+            inl = Inliner(raws, norm, no_inline)
+            for raw in raws:
+                self.orig[raw["id"]] = Body(raw, facts)
+            raws = [inl.inline(raw) for raw in raws]
+        for raw in raws:
             b = Body(raw, facts)
             self.bodies[b.id] = b
+        if not self.orig:
+            self.orig = self.bodies
+        # bodies spliced into their callers (private helpers, directly called local closures):
+        # their standalone copy is not an analysis subject of site-based rules
+        spl = set()
+        for b in self.bodies.values():
+            spl |= set(b.raw.get("inlined", []))
+        self.absorbed = set()
+        for b in self.bodies.values():
+            if b.nid in spl and b.vis != "pub" and not b.impl_trait:
+                self.absorbed.add(b.id)
         self.by_nid = defaultdict(list)
         for b in self.bodies.values():
             self.by_nid[b.nid].append(b)
@@ -595,19 +617,33 @@ class Program:
 
     # ---- closure creation sites: closure id -> (parent body, bb, stmt idx, upvar operands)
     def _index_closures(self):
+        """closure id -> creation site, taken from the closure's lexical parent body (an inlined
+        copy of the parent inside another body is not a second creation site)."""
         self.created = {}
+        parent_of = {raw["id"]: raw["parent"] for raw in self.facts["bodies"] if raw["kind"] == "closure"}
         for b in self.bodies.values():
             for i in sorted(b.reach):
                 for j, s in enumerate(b.blocks[i]["stmts"]):
                     if s["k"] == "assign" and s["rv"]["k"] == "agg" and s["rv"]["ak"] == "closure":
-                        self.created[s["rv"]["def"]] = (b, i, j, s["rv"]["ops"], s["lhs"][0], s["line"])
+                        cid = s["rv"]["def"]
+                        lexical = parent_of.get(cid) == b.id
+                        if cid in self.created and not lexical:
+                            continue
+                        if cid in self.created and self.created[cid][6] and lexical and not self.blocks_inlined(b, i):
+                            pass
+                        if cid not in self.created or (lexical and (not self.created[cid][6] or not self.blocks_inlined(b, i))):
+                            self.created[cid] = (b, i, j, s["rv"]["ops"], s["lhs"][0], s["line"], lexical)
+
+    @staticmethod
+    def blocks_inlined(b, i):
+        return bool(b.blocks[i].get("inl"))
 
     def upvar_origin(self, body, k):
         """Provenance (in the parent body) of upvar k of closure `body`."""
         cr = self.created.get(body.id)
         if not cr:
             return None, frozenset([("unk", "nocreate", ())])
-        parent, bb, j, ops, _, _ = cr
+        parent, bb, j, ops = cr[0], cr[1], cr[2], cr[3]
         if k >= len(ops):
             return parent, frozenset([("unk", "upvar-index", ())])
         return parent, parent.operand_prov(ops[k])
@@ -632,6 +668,13 @@ class Program:
                     continue
                 for (prk, prd, ppath) in provs:
                     st.append((parent, (prk, prd, ppath + path)))
+            elif rk == "agg" and path:
+                ex = b._through_agg(t)
+                if ex == {t}:
+                    out.add((b.id, rk, rd, path))
+                else:
+                    for t2 in ex:
+                        st.append((b, t2))
             else:
                 out.add((b.id, rk, rd, path))
         return out
